@@ -367,10 +367,15 @@ impl Store {
 
             // Handle heartbeat if requested
             if let FollowOption::WithHeartbeat(duration) = options.follow {
-                let heartbeat_tx = tx;
+                // Only a weak handle: heartbeats must not keep the stream open once the
+                // history thread and the live task (the strong senders) are gone
+                let heartbeat_tx = tx.downgrade();
                 tokio::spawn(async move {
                     loop {
                         tokio::time::sleep(duration).await;
+                        let Some(heartbeat_tx) = heartbeat_tx.upgrade() else {
+                            break;
+                        };
                         let frame =
                             Frame::builder("xs.pulse", options.context_id.unwrap_or(ZERO_CONTEXT))
                                 .id(scru128::new())
